@@ -8,9 +8,12 @@ open Proto
   texts:   `e` = empty, else decimal code points joined by `.`            (97.98 = "ab")
   values:  N | B0 | B1 | I<int> | S<text> | P<text> | E<int> | L[<text>,…] | T[<text>,…] | D[<text>:<text>,…]
            | Y<ctor>:<text> | O<id>          (`L`, `T`, `D` alone = empty collection)
-  types:   bool path str int dict list tuple other<k> enum0:<text>=<int>,…
+           | U<k>:<value> (instance of the user-defined class #k) | C<class>:<text> (the descriptor of a value)
+  types:   bool path str int dict list tuple other<k> ntuple<k> sub<k>:<type>
+           enumP:<text>=<int>,… (plain) | enumS:… (str mix-in) | enumI:… (int mix-in) | enumF<k>:… (IntFlag #k)
   ops:     reset | cv … (a descriptor of a hand-written metaclass) | attr … (an attribute of a decorated class: -> cv | plain)
-           | assign | delete | setenv | unsetenv | update | get | envname | parse | render | join | pyint | isupper
+           | assign | delete | setenv | unsetenv | update | updret (what the update would return) | todict | get | envname
+           | parse | lattice | select | render | join | pyint | isupper
 -/
 
 namespace Config
@@ -29,7 +32,7 @@ def decPair (s : String) : Option (Text × Text) :=
   | [k, v] => do pure (← decText k, ← decText v)
   | _ => none
 
-def decV (s : String) : Option V :=
+def decBaseV (s : String) : Option V :=
   let r := (s.drop 1).toString
   match s.front with
   | 'N' => some .none
@@ -45,7 +48,18 @@ def decV (s : String) : Option V :=
     | [c, t] => do pure (.sym (← c.toNat?) (← decText t))
     | _ => none
   | 'O' => r.toNat?.map .obj
+  | 'C' => match r.splitOn ":" with
+    | [c, n] => do pure (.desc (← c.toNat?) (← decText n))
+    | _ => none
   | _ => none
+
+/-- `U<k>:<value>` = an instance of the user-defined class #k -/
+def decV (s : String) : Option V :=
+  if s.front = 'U' then
+    match (s.drop 1).toString.splitOn ":" with
+    | k :: rest => do pure (.inst (← k.toNat?) (← decBaseV (":".intercalate rest)))
+    | [] => none
+  else decBaseV s
 
 def encV : V → String
   | .none => "N"
@@ -59,13 +73,22 @@ def encV : V → String
   | .dict kvs => "D" ++ ",".intercalate (kvs.map fun (k, v) => encText k ++ ":" ++ encText v)
   | .sym c t => s!"Y{c}:" ++ encText t
   | .obj i => s!"O{i}"
+  | .inst k v => s!"U{k}:" ++ encV v
+  | .desc c n => s!"C{c}:" ++ encText n
 
 def decMember (s : String) : Option (Text × Int) :=
   match s.splitOn "=" with
   | [n, v] => do pure (← decText n, ← v.toInt?)
   | _ => none
 
-def decTy (s : String) : Option Ty :=
+def decMix (s : String) : Option Mix :=
+  match s with
+  | "P" => some .plain
+  | "S" => some .str
+  | "I" => some .int
+  | _ => if s.startsWith "F" then (s.drop 1).toString.toNat?.map .flag else none
+
+def decBaseTy (s : String) : Option Ty :=
   match s with
   | "bool" => some .bool
   | "path" => some .path
@@ -76,13 +99,23 @@ def decTy (s : String) : Option Ty :=
   | "tuple" => some .tuple
   | _ =>
     if s.startsWith "other" then (s.drop 5).toString.toNat?.map .other
+    else if s.startsWith "ntuple" then (s.drop 6).toString.toNat?.map .ntuple
     else if s.startsWith "enum" then
       match ((s.drop 4).toString).splitOn ":" with
-      | [_, ms] => do
+      | [mix, ms] => do
         let members ← if ms = "" then some [] else (ms.splitOn ",").mapM decMember
-        pure (.enum members)
+        pure (.enum (← decMix mix) members)
       | _ => none
     else none
+
+/-- `sub<k>:sub<j>:<base type>` -/
+def decTyParts : List String → Option Ty
+  | [] => none
+  | p :: rest =>
+    if p.startsWith "sub" then do pure (.sub (← (p.drop 3).toString.toNat?) (← decTyParts rest))
+    else decBaseTy (":".intercalate (p :: rest))
+
+def decTy (s : String) : Option Ty := decTyParts (s.splitOn ":")
 
 def encErr : Err → String
   | .valueError => "ValueError"
@@ -90,6 +123,10 @@ def encErr : Err → String
   | .typeError => "TypeError"
   | .attributeError => "AttributeError"
   | .other => "Other"
+
+def branchName : Branch → String
+  | .custom => "custom" | .bool => "bool" | .path => "path" | .str => "str" | .enum => "enum" | .mapping => "mapping"
+  | .iterable => "iterable" | .int => "int"
 
 def encRes : Except Err V → String
   | .ok v => "ok " ++ encV v
@@ -116,6 +153,9 @@ def decUpd (s : String) : Option (Text × V) :=
   | [n, v] => do pure (← decText n, ← decV v)
   | _ => none
 
+def encDict (d : List (Text × V)) : String :=
+  if d.isEmpty then "empty" else " ".intercalate (d.map fun (n, v) => encText n ++ "=" ++ encV v)
+
 structure DState where
   decl : List CV
   st : State
@@ -130,7 +170,7 @@ def handle (ds : DState) (line : String) : DState × String :=
   | ["cv", c, n, ty, dflt, p, ov, pre, m] =>
     match nat? c, decText n, decTy ty, decV dflt, optParser p, decText ov, decText pre, decText m with
     | some c, some n, some ty, some dflt, some p, some ov, some pre, some m =>
-      ({ ds with decl := ds.decl ++ [⟨c, n, dflt, ty, p, ov, pre, m⟩] }, "ok")
+      ({ ds with decl := ds.decl ++ [declare src ⟨dflt, ty, ov, pre, p⟩ c n m] }, "ok")
     | _, _, _, _, _, _, _, _ => bad
   -- one attribute of the body of a class decorated with `config(pre)`: the model's decorator decides what it becomes
   | ["attr", c, n, ty, dflt, p, ov, pre, m] =>
@@ -158,6 +198,15 @@ def handle (ds : DState) (line : String) : DState × String :=
   | "update" :: c :: upd => match nat? c, upd.mapM decUpd with
     | some c, some upd => stepWith (.update c upd)
     | _, _ => bad
+  | "updret" :: c :: upd => match nat? c, upd.mapM decUpd with
+    | some c, some upd => (ds, match updateResult src ds.decl ds.st c upd with
+      | .ok (some d) => "ok " ++ encDict d
+      | .ok none => "ok none"
+      | .error e => "err " ++ encErr e)
+    | _, _ => bad
+  | ["todict", c] => match nat? c with
+    | some c => (ds, encDict (toDict src ds.decl c))
+    | none => bad
   | ["get", c, n] => match nat? c, decText n with
     | some c, some n => match lookupCV ds.decl c n with
       | some cv => (ds, encRes (get src parsers cv ds.st))
@@ -171,6 +220,19 @@ def handle (ds : DState) (line : String) : DState × String :=
   | ["parse", ty, p, t] => match decTy ty, optParser p, decText t with
     | some ty, some p, some t => (ds, encRes (parse src parsers ⟨0, [], .none, ty, p, [], [], []⟩ t))
     | _, _, _ => bad
+  -- the place of a type in the lattice: `<exact|none> <dispatch classes it is a subclass of, in a fixed order>`
+  | ["lattice", ty] => match decTy ty with
+    | some ty =>
+      let order : List Branch := [.bool, .int, .path, .str, .enum, .mapping, .iterable]
+      let ex := match ty.exact with | some b => branchName b | none => "none"
+      (ds, ex ++ " " ++ ",".intercalate ((order.filter ty.supers.contains).map branchName))
+    | none => bad
+  -- which test of `parse` a value of this type takes: `<position> <class>` | `none`
+  | ["select", ty] => match decTy ty with
+    | some ty => (ds, match selectedTest ty src.parseTests with
+      | some b => s!"{src.parseTests.idxOf b} {branchName b.cls}"
+      | none => "none")
+    | none => bad
   | ["render", n] => match int? n with
     | some n => (ds, encText (renderInt n))
     | none => bad
